@@ -1299,8 +1299,10 @@ func (r *reader) run(ctx context.Context, offset int64) {
 	// If the reader wasn't retrying then the program would block indefinitely
 	// on a Read call after reading the first error.
 	for attempt := 0; true; attempt++ {
+		if verifOn { verifEvent("RL.Top", r, r.topic, attempt, offset) }
 		if attempt != 0 {
 			if !sleep(ctx, backoff(attempt, r.backoffDelayMin, r.backoffDelayMax)) {
+				if verifOn { verifEvent("RL.Cancel", r, r.topic) }
 				return
 			}
 		}
@@ -1310,6 +1312,7 @@ func (r *reader) run(ctx context.Context, offset int64) {
 		})
 
 		conn, start, err := r.initialize(ctx, offset)
+		if verifOn { verifEvent("RL.Init", r, r.topic, verifErrClass(err), start) }
 		if err != nil {
 			if errors.Is(err, OffsetOutOfRange) {
 				if r.offsetOutOfRangeError {
@@ -1354,12 +1357,15 @@ func (r *reader) run(ctx context.Context, offset int64) {
 		errcount := 0
 	readLoop:
 		for {
+			if verifOn { verifEvent("RL.Iter", r, r.topic, errcount, offset) }
 			if !sleep(ctx, backoff(errcount, r.backoffDelayMin, r.backoffDelayMax)) {
+				if verifOn { verifEvent("RL.Cancel", r, r.topic) }
 				conn.Close()
 				return
 			}
 
 			offset, err = r.read(ctx, offset, conn)
+			if verifOn { verifEvent("RL.Read", r, r.topic, verifErrClass(err), offset, verifConnOffset(conn)) }
 			switch {
 			case err == nil:
 				errcount = 0
@@ -1416,6 +1422,7 @@ func (r *reader) run(ctx context.Context, offset int64) {
 
 			case errors.Is(err, OffsetOutOfRange):
 				first, last, err := r.readOffsets(conn)
+				if verifOn { verifEvent("RL.Offsets", r, r.topic, verifErrClass(err), first, last) }
 				if err != nil {
 					r.withErrorLogger(func(log Logger) {
 						log.Printf("the kafka reader got an error while attempting to determine whether it was reading before the first offset or after the last offset of partition %d of %s: %s", r.partition, r.topic, err)
@@ -1512,6 +1519,7 @@ func (r *reader) initialize(ctx context.Context, offset int64) (conn *Conn, star
 		case offset < first:
 			offset = first
 		}
+		if verifOn { verifEvent("RL.Offsets", r, r.topic, "nil", first, last) }
 
 		r.withLogger(func(log Logger) {
 			log.Printf("the kafka reader for partition %d of %s is seeking to offset %d", r.partition, r.topic, toHumanOffset(offset))
@@ -1567,6 +1575,7 @@ func (r *reader) read(ctx context.Context, offset int64, conn *Conn) (int64, err
 			batch.Close()
 			break
 		}
+		if verifOn { verifEvent("RL.Msg", r, r.topic, msg.Offset) }
 
 		offset = msg.Offset + 1
 		r.stats.offset.observe(offset)
@@ -1600,6 +1609,7 @@ func (r *reader) sendMessage(ctx context.Context, msg Message, watermark int64) 
 }
 
 func (r *reader) sendError(ctx context.Context, err error) error {
+	if verifOn { verifEvent("RL.SendErr", r, r.topic, verifErrClass(err)) }
 	select {
 	case r.msgs <- readerMessage{version: r.version, error: err}:
 		return nil
